@@ -1,8 +1,8 @@
 SPECIFICATION MCSpec
 CONSTANTS
   MaxTicksS = 3
-  MaxChanges = 2
-  MaxQ = 4
+  MaxChanges = 1
+  MaxQ = 2
   Fields = {"current_usage", "swap_max", "effective_swap_free", "effective_swap_util_ppm", "memory_protection", "average_usage", "io_cost_rate", "pg_scan_rate"}
 INVARIANTS NoStaleArchive RawExact
 PROPERTIES CacheOnlyGrows FreshNextTick StableInTick
